@@ -90,7 +90,7 @@ Section Gen.
       destruct (w_step w o) as [r w1] eqn:Es. destruct (w_run w1 ops) as [rs1 w2] eqn:Er. inversion H; subst.
       constructor; [|eapply IH; eassumption].
       destruct o; simpl in Es; try discriminate.
-      + eapply w_send_res_ok; eassumption.
+      + unfold w_next in Es. eapply w_send_res_ok; eassumption.
       + eapply w_send_res_ok; eassumption.
       + unfold w_close in Es. destruct (inner_close body (w_inner w)) as [[y|v|e|] g']; inversion Es; subst; exact I.
   Qed.
@@ -107,34 +107,36 @@ Section Gen.
   Qed.
 
   Lemma inner_send_inv : forall g v res g', inner_send body g v = (res, g') ->
-    Forall resume_ok (g_hist g) -> (g_accepted st_ v \/ (g_started g = false /\ True)) ->
+    Forall resume_ok (g_hist g) -> (g_accepted st_ v \/ (g_started g = false /\ True) \/ v = VNone) ->
     Forall resume_ok (g_hist g').
   Proof.
     intros g v res g' H Hh Hv. unfold inner_send in H.
     destruct (g_done g); [inversion H; subst; assumption|].
     destruct (negb (g_started g) && negb (is_none v)) eqn:E; [inversion H; subst; assumption|].
     destruct (react_hist _ _ _ _ H) as [-> _]. apply Forall_app. split; [assumption|]. constructor; [|constructor].
-    simpl. destruct Hv as [Hv|[Hs _]]; [now left|]. right. rewrite Hs in E. simpl in E. destruct v; try discriminate; reflexivity.
+    simpl. destruct Hv as [Hv|[[Hs _]|Hv]]; [now left| |now right]. right. rewrite Hs in E. simpl in E. destruct v; try discriminate; reflexivity.
   Qed.
 
   Lemma w_step_inv : forall w o res w', w_step w o = (res, w') -> winv w -> winv w'.
   Proof.
     intros w o res w' H [Hi Hh].
-    assert (Hsend : forall v, w_send w v = (res, w') -> winv w').
-    { intros v Hs. unfold GenWrapper.w_send in Hs.
-      destruct (w_init w) eqn:Ei.
-      - destruct (check st_ v (w_tv w)) as [[u|e] tv1] eqn:Ec; [|inversion Hs; subst; split; [intros; congruence|assumption]].
-        assert (Hacc : g_accepted st_ v) by (exists (w_tv w), tv1; now destruct u).
+    assert (Hsend : forall w0 v, w_inner w0 = w_inner w -> (w_init w0 = w_init w \/ v = VNone) -> w_send w0 v = (res, w') -> winv w').
+    { intros w0 v Hin0 Hiv Hs. unfold GenWrapper.w_send in Hs. rewrite Hin0 in Hs.
+      destruct (w_init w0) eqn:Ei.
+      - destruct (check st_ v (w_tv w0)) as [[u|e] tv1] eqn:Ec.
+        2:{ inversion Hs; subst. split; [intros; congruence|now rewrite Hin0]. }
+        assert (Hacc : g_accepted st_ v) by (exists (w_tv w0), tv1; now destruct u).
         destruct (inner_send body (w_inner w) v) as [ir g'] eqn:Eis.
         pose proof (inner_send_inv _ _ _ _ Eis Hh (or_introl Hacc)) as Hh'.
         destruct ir as [y|r|e|]; [destruct (check yt y tv1) as [[u2|e2] tv2]|destruct (check rt r tv1) as [[u2|e2] tv2]| |];
           inversion Hs; subst; split; simpl; try assumption; intros; discriminate.
-      - specialize (Hi eq_refl).
+      - assert (Hv : g_accepted st_ v \/ (g_started (w_inner w) = false /\ True) \/ v = VNone).
+        { destruct Hiv as [E|E]; [right; left; split; [apply Hi; congruence|exact I]|now right; right]. }
         destruct (inner_send body (w_inner w) v) as [ir g'] eqn:Eis.
-        pose proof (inner_send_inv _ _ _ _ Eis Hh (or_intror (conj Hi I))) as Hh'.
-        destruct ir as [y|r|e|]; [destruct (check yt y (w_tv w)) as [[u2|e2] tv2]|destruct (check rt r (w_tv w)) as [[u2|e2] tv2]| |];
+        pose proof (inner_send_inv _ _ _ _ Eis Hh Hv) as Hh'.
+        destruct ir as [y|r|e|]; [destruct (check yt y (w_tv w0)) as [[u2|e2] tv2]|destruct (check rt r (w_tv w0)) as [[u2|e2] tv2]| |];
           inversion Hs; subst; split; simpl; try assumption; intros; discriminate. }
-    destruct o; simpl in H; [eapply Hsend; eassumption|eapply Hsend; eassumption| |].
+    destruct o; simpl in H; [unfold w_next in H; eapply (Hsend (w_uninit w) VNone); [reflexivity|now right|exact H]|eapply (Hsend w v); [reflexivity|now left|exact H]| |].
     - (* throw *)
       unfold w_throw, inner_throw in H.
       destruct (g_done (w_inner w)) eqn:Ed.
@@ -200,9 +202,9 @@ Section GenTransparent.
     | [] => ([], g)
     | o :: ops' => let (r, g1) := twin_step g o in let (rs, g2) := twin_run g1 ops' in (r :: rs, g2)
     end.
-  (* every value sent conforms to the send type (the None of next() included) *)
+  (* every value the caller SENDS conforms to the send type (a next() sends nothing: /repo a25625d) *)
   Definition op_ok (o : gop) : Prop :=
-    match o with OpNext => g_accepts st_ VNone | OpSend v => g_accepts st_ v | _ => True end.
+    match o with OpSend v => g_accepts st_ v | _ => True end.
 
   Lemma react_event : forall g r i g', react body g r = (i, g') ->
     match i with
@@ -227,14 +229,14 @@ Section GenTransparent.
     pose proof (react_event _ _ _ _ H) as He. destruct i; try exact I; destruct He as [h Hh]; eauto.
   Qed.
 
-  Lemma w_send_transparent : forall w v, g_accepts st_ v ->
+  Lemma w_send_transparent : forall w v, (w_init w = true -> g_accepts st_ v) ->
     let (i, g') := inner_send body (w_inner w) v in
     exists w', w_send check yt st_ rt body w v = (res_of i, w') /\ w_inner w' = g'.
   Proof.
     intros w v Hv. destruct (inner_send body (w_inner w) v) as [i g'] eqn:Ei.
     pose proof (inner_send_event _ _ _ _ Ei) as Hev. unfold w_send. rewrite Ei.
     assert (Hpre : exists tv1, (if w_init w then match check st_ v (w_tv w) with (Ok _, tv') => Ok tv' | (Raise e, _) => Raise e end else Ok (w_tv w)) = Ok tv1).
-    { destruct (w_init w); [|eauto]. specialize (Hv (w_tv w)). destruct (check st_ v (w_tv w)) as [[u|e] tv']; simpl in Hv; [eauto|discriminate]. }
+    { destruct (w_init w); [|eauto]. specialize (Hv eq_refl (w_tv w)). destruct (check st_ v (w_tv w)) as [[u|e] tv']; simpl in Hv; [eauto|discriminate]. }
     destruct Hpre as [tv1 ->].
     destruct i as [y|r|e|]; simpl.
     - specialize (Hev tv1). destruct (check yt y tv1) as [[u|e] tv2]; simpl in Hev; [eauto|discriminate].
@@ -254,8 +256,8 @@ Section GenTransparent.
     exists w', w_step check yt st_ rt body w o = (res_of i, w') /\ w_inner w' = g'.
   Proof.
     intros w o Ho. destruct o as [|v|e|]; simpl in *.
-    - exact (w_send_transparent w VNone Ho).
-    - exact (w_send_transparent w v Ho).
+    - unfold w_next. apply (w_send_transparent (w_uninit w) VNone). intros E. discriminate.
+    - exact (w_send_transparent w v (fun _ => Ho)).
     - unfold w_throw. destruct (inner_throw body (w_inner w) e) as [[y|r|e'|] g']; simpl; eauto.
     - unfold w_close. destruct (inner_close body (w_inner w)) as [i g'] eqn:Ec.
       pose proof (inner_close_shape _ _ _ Ec) as Hs. destruct i; try contradiction; simpl; eauto.
